@@ -191,3 +191,15 @@ def _m_innode(job, rec, k):
     w = rec.get('what', '')
     return (rec.get('kind') in ('compile-raises', 'emitted-function-raises') and
             ('could not be broadcast together' in w or 'out of bounds' in w or 'invalid index' in w))
+
+
+@matcher('edge-values-ignored-vectorized')
+def _m_edge_values(job, rec, k):
+    """apply(edge_values=...) is not honoured with vectorize=True: the failing variable must be the target of an edge
+    named in edge_values"""
+    ev = (job.get('compile_kw') or {}).get('edge_values') or {}
+    if not ev or not job.get('vectorize') or rec.get('kind') != 'vector-field':
+        return False
+    targets = {t.rsplit('/', 2)[0] for (_, t) in ev}
+    var = rec.get('var', '')
+    return var.rsplit('/', 2)[0] in targets
